@@ -7,7 +7,7 @@ from ..ops import *
 from .c04 import judge, spec_tensor
 
 IMPORTS = ('From OFV Require Import Base.Cplx Base.Lin Base.Mat Sem.PauliSem Sem.FermiSem Sem.BoseSem Model.SymbolicOp Model.QubitOp Model.LadderOp '
-           'Check.Sectors Check.MatrixOf Check.BoseMatrix.\n')
+           'Model.LinearOp Check.Sectors Check.MatrixOf Check.BoseMatrix.\n')
 NEEDS = ['Check/MatrixOf', 'Check/BoseMatrix']
 LEVEL = 'translation_validation'
 EPS2 = cQ(Fraction(1, 10 ** 18)); EPS = cQ(Fraction(1, 10 ** 9))
@@ -129,7 +129,7 @@ def run(ctx):
         if rng.random() < 0.3: x = np.eye(2 ** n, dtype=complex)[rng.randrange(2 ** n)]
         rp = {'call': 'LinearQubitOperator', 'n_qubits': n, 'terms': {repr(t): repr(c) for t, c in qop.terms.items()}, 'vector': [repr(v) for v in x]}
         y = LinearQubitOperator(qop, n) * x
-        add('linear_qubit_operator', '(vec_close %s (mvmul (qubit_matrix %s %s) %s) %s)' % (EPS2, cnat(n), coq_qop(qop), cvec(x), cvec(y)), rp, key=repr(rp))
+        add('linear_qubit_operator', '(vec_close %s (mvmul (qubit_matrix %s %s) %s) %s && vec_close %s (lqo %s %s %s) %s)' % (EPS2, cnat(n), coq_qop(qop), cvec(x), cvec(y), EPS2, cnat(n), coq_qop(qop), cvec(x), cvec(y)), rp, key=repr(rp))
         for procs in (1, 2, 3, 7, 10):
             oname = rng.choice(list(orders))
             opts = LinearQubitOperatorOptions(processes=procs, pool=FakePool(orders[oname]))
@@ -178,13 +178,14 @@ def run(ctx):
                     Md_ = dense(Mx_)
                     refs = {'column': (xv.conj() @ Md_ @ xv, xv.reshape(-1, 1)), 'density_pure': (np.trace(np.outer(xv, xv.conj()) @ Md_), _sp.csc_matrix(np.outer(xv, xv.conj()))),
                             'density_mixed': (np.trace(rho @ Md_), _sp.csc_matrix(rho)), 'density_mixed_csr': (np.trace(rho @ Md_), _sp.csr_matrix(rho))}
+                    refs['vector_1d'] = (xv.conj() @ Md_ @ xv, xv.copy())
                     for fmt, (want, stt) in refs.items():
                         got = st.expectation(Mx_, stt)
                         ctx.count('expectation_formats', 1, nontrivial_key=(repr(qop.terms), nm_, fmt))
                         if abs(complex(got) - complex(want)) > 1e-9:
                             ctx.violation('C06 expectation (%s state, %s): %r differs from direct linear algebra %r' % (fmt, nm_, complex(got), complex(want)),
                                           {'call': 'expectation', 'state_format': fmt, 'operator': nm_, 'terms': rp['terms'], 'n_qubits': n, 'x': repr(xv.tolist()), 'y': repr(y.tolist())})
-                        if fmt != 'column':
+                        if True:
                             gv = st.variance(Mx_, stt); wv = np.trace(rho @ Md_ @ Md_) - np.trace(rho @ Md_) ** 2 if 'mixed' in fmt else xv.conj() @ Md_ @ Md_ @ xv - (xv.conj() @ Md_ @ xv) ** 2
                             if abs(complex(gv) - complex(wv)) > 1e-8:
                                 ctx.violation('C06 variance (%s state, %s): %r differs from direct linear algebra %r' % (fmt, nm_, complex(gv), complex(wv)),
